@@ -317,6 +317,12 @@ def runFlushRace (_prop : String) (_f : List String) (obsS : String) : Verdict :
   else if obsS == "setup-failed" then ⟨true, obsS, obsS, none, ["flush-race-setup-failed"], false⟩
   else ⟨true, obsS, obsS, some ("C12+C06+C13", "concurrent flushes: " ++ obsS), ["flush-race"], false⟩
 
+/-- UDP sink constructors on an empty address list: `InvalidInput`, no panic, no sink -/
+def runCtor (_prop : String) (_f : List String) (obsS : String) : Verdict :=
+  if obsS == "inv,inv,inv" then ⟨true, obsS, obsS, none, ["ctor-empty-address-list"], false⟩
+  else if obsS == "setup-failed" then ⟨true, obsS, obsS, none, ["ctor-setup-failed"], false⟩
+  else ⟨false, obsS, "inv,inv,inv", some (if (obsS.splitOn "panic").length > 1 then "C20+C13" else "C13", "a UDP sink constructor given an address that resolves to nothing: " ++ obsS), ["ctor-empty-address-list"], false⟩
+
 def runLock (_prop : String) (_f : List String) (obsS : String) : Verdict :=
   if obsS == "ok" then ⟨true, "ok", "ok", none, ["lock-contention"], false⟩
   else if obsS == "ok-not-blocked" then ⟨true, "ok", "ok", none, ["lock-contention-not-set-up"], false⟩
